@@ -46,7 +46,8 @@ VARIANTS = {
 DRIVERS = {
     "bitmap": dict(variant="asan", src=["core/core.cc", "bitmap/machine_bitmap.cc"], link=[]),
     "topo": dict(variant="asan", src=["core/core.cc", "topo/dump.cc", "topo/wf.cc", "topo/src.cc", "topo/ops_core.cc", "topo/ops_repl.cc", "topo/ops_aux.cc", "topo/ops_diff.cc", "topo/ops_shm.cc", "topo/battery.cc", "topo/ops_xmlfault.cc",
-                                      "topo/machine_topo.cc"], link=[]),
+                                      "topo/ops_snapshot.cc", "topo/fswrap.cc", "topo/machine_topo.cc"],
+                 link=["-Wl,--wrap=readdir,--wrap=closedir,--wrap=rewinddir"]),   # readdir seam of the simulated disk (topo/fswrap.cc)
     # C10: hwloc's Linux binding hooks against the kernel model (bind/kmodel.cc); the real kernel is never asked
     "bind": dict(variant="asan", src=["core/core.cc", "bind/kmodel.cc", "bind/machine_bind.cc"],
                  link=["-Wl,--wrap=sched_setaffinity,--wrap=sched_getaffinity,--wrap=sched_getcpu,--wrap=syscall,"
